@@ -242,8 +242,11 @@ func (st *fnState) ownOf(v ssa.Value) origSet {
 		res.addAll(st.callResult(x))
 	}
 	if !pointerLike(v.Type()) {
-		// addresses (FieldAddr etc.) are pointer-typed and so kept; plain scalars carry no provenance
-		if _, isPtr := v.Type().Underlying().(*types.Pointer); !isPtr {
+		// addresses (FieldAddr etc.) are pointer-typed and so kept; plain scalars carry no provenance.
+		// A map/string iterator (Range) is opaque but stands for the container it walks: keep its provenance, or the
+		// values obtained with Next lose theirs (a store through `for _, v := range m { v.f = x }` would go unseen).
+		_, isRange := v.(*ssa.Range)
+		if _, isPtr := v.Type().Underlying().(*types.Pointer); !isPtr && !isRange {
 			res = origSet{}
 		}
 	}
@@ -393,6 +396,32 @@ var extWrites = map[string]int{
 	"(*sync.Mutex).Lock": -1, "(*sync.Mutex).Unlock": -1, "(*sync.RWMutex).Lock": -1, "(*sync.RWMutex).Unlock": -1, "(*sync.RWMutex).RLock": -1, "(*sync.RWMutex).RUnlock": -1,
 }
 
+// extReadOnly: library methods with a pointer receiver that are documented not to change it (or to be safe for
+// concurrent use and free of observable state).
+func extReadOnly(name string) bool {
+	switch {
+	case strings.HasPrefix(name, "(*sync.Map).Load"), name == "(*sync.Map).Range":
+		return true
+	case strings.HasPrefix(name, "(*sync/atomic.") && strings.HasSuffix(name, ").Load"):
+		return true
+	case strings.HasPrefix(name, "(*regexp.Regexp)."):
+		return true // "A Regexp is safe for concurrent use by multiple goroutines"
+	case strings.HasPrefix(name, "(*bytes.Buffer).") && (strings.HasSuffix(name, ").String") || strings.HasSuffix(name, ").Len") || strings.HasSuffix(name, ").Bytes") || strings.HasSuffix(name, ").Cap")):
+		return true
+	case strings.HasPrefix(name, "(*strings.Builder).") && (strings.HasSuffix(name, ").String") || strings.HasSuffix(name, ").Len") || strings.HasSuffix(name, ").Cap")):
+		return true
+	case strings.HasPrefix(name, "(*os.File).") && (strings.HasSuffix(name, ").Name") || strings.HasSuffix(name, ").Stat")):
+		return true
+	case strings.HasPrefix(name, "(*errors.") || strings.HasSuffix(name, ").Error") || strings.HasSuffix(name, ").Unwrap"):
+		return true
+	case strings.HasPrefix(name, "(*reflect.rtype)."), strings.HasPrefix(name, "(*reflect.ValueError)."):
+		return true
+	case strings.HasPrefix(name, "(*github.com/textwire/textwire/v2/"):
+		return true // module code is summarised, not tabled
+	}
+	return false
+}
+
 func isReflectSetter(name string) bool {
 	if !strings.HasPrefix(name, "(reflect.Value).") {
 		return false
@@ -525,6 +554,14 @@ func (ea *effectAnalysis) analyse(fn *ssa.Function) bool {
 				}
 				if idx, ok := extWrites[name]; ok && idx >= 0 && idx < len(com.Args) {
 					addWrite(st.ownOf(com.Args[idx]), name+" writes through "+valueDesc(com.Args[idx]), "call:"+name, in, nil, fn, m.InstrPos(in))
+				}
+				if _, listed := extWrites[name]; !listed && !extReadOnly(name) {
+					// sound default: a method of a library type with a pointer receiver may change its receiver
+					if sc := com.StaticCallee(); sc != nil && sc.Signature.Recv() != nil && len(com.Args) > 0 {
+						if _, isPtr := sc.Signature.Recv().Type().Underlying().(*types.Pointer); isPtr {
+							addWrite(st.ownOf(com.Args[0]), name+" may change its receiver "+valueDesc(com.Args[0]), "call:"+name, in, nil, fn, m.InstrPos(in))
+						}
+					}
 				}
 				if isReflectSetter(name) && len(com.Args) > 0 {
 					addWrite(st.ownOf(com.Args[0]), name+" mutates the reflected value", "call:"+name, in, nil, fn, m.InstrPos(in))
